@@ -11,6 +11,7 @@ atoms (<= MAX_ATOMS) under the one-hot constraint for `variant` atoms of one pla
 import itertools
 
 MAX_ATOMS = 18
+ENUMS = []   # variant-name sets of the analysed crate's enums (plus Ok/Err), for exhaustive one-hot groups
 
 
 def atom(*key):
@@ -112,7 +113,11 @@ def assignments(atom_list):
             free.append(a)
     group_choices = []
     for place, members in groups.items():
-        ch = [None] + members  # None = some other variant
+        names = {m[2] for m in members}
+        # which enums of the analysed crate could this place be? (ENUMS is filled by the harness)
+        cands = [e for e in ENUMS if names <= e]
+        other_possible = (not cands) or any(e - names for e in cands)
+        ch = ([None] if other_possible else []) + members  # None = some other variant
         group_choices.append((members, ch))
     for bits in itertools.product([False, True], repeat=len(free)):
         base = dict(zip(free, bits))
@@ -196,6 +201,32 @@ def show_asg(asg):
     pos = [show_atom(a) for a, v in asg.items() if v and a[0] != "empty"]
     pos += ["!" + show_atom(a) for a, v in asg.items() if not v and a[0] == "empty"]
     return "only [%s] set (everything else empty/none/false)" % "; ".join(sorted(pos))
+
+
+def int_semantics(f, var, value):
+    """Evaluate a formula whose atoms are all inrange/cmp tests of `var` against integer constants, at var = value.
+    Returns None if some atom is not of that shape."""
+    asg = {}
+    for a in atoms(f):
+        if a[0] == "inrange" and a[1] == var and isinstance(a[2], int) and isinstance(a[3], int):
+            asg[a] = a[2] <= value < a[3] + (1 if a[4] else 0)
+        elif a[0] == "cmp":
+            op, l, r = a[1], a[2], a[3]
+            def num(s):
+                try:
+                    return int(str(s).replace("_", ""))
+                except Exception:
+                    return None
+            if l == var and num(r) is not None:
+                x, y = value, num(r)
+            elif r == var and num(l) is not None:
+                x, y = num(l), value
+            else:
+                return None
+            asg[a] = {"<": x < y, "<=": x <= y, ">": x > y, ">=": x >= y}[op]
+        else:
+            return None
+    return evalf(f, asg)
 
 
 # --- tiny parser for reference formulas --------------------------------------
